@@ -1,21 +1,32 @@
 #!/bin/bash
 # mc.sh <subcommand> <Cxx> [...]: regenerate the instrumented copy of /repo's
 # working tree, rebuild the driver against it, run it.
+# For evaluating changes without touching /repo (seed evaluation), three
+# variables redirect it: MC_REPO (tree to instrument, default /repo), MC_BUILD
+# (build directory, default /verif/build), MC_VERIF_OUT (where evidence/ and
+# replays/ are written, default /verif).
 export GOFLAGS=-mod=mod GOPROXY=off GOSUMDB=off GOTOOLCHAIN=local
 V=/verif
-B=$V/build
+R=${MC_REPO:-/repo}
+B=${MC_BUILD:-$V/build}
 mkdir -p $B $V/bin
 ID="$2-${VERIF_TIER:-x}-$$"
 (
   flock 9
   [ -x $V/bin/mcgen ] || (cd $V/mcgen && go build -o $V/bin/mcgen .) || exit 2
-  $V/bin/mcgen -src /repo -out $B/gen/mpb >$B/gen.log 2>&1 || { cat $B/gen.log; echo "mc.sh: cannot instrument /repo (not a verdict)"; exit 2; }
-  $V/bin/mcgen -nofuel -src $V/scen -out $B/gen/scen -replace "github.com/vbauerster/mpb/v8=>$B/gen/mpb" >>$B/gen.log 2>&1 || { cat $B/gen.log; echo "mc.sh: cannot instrument scenarios against /repo (not a verdict)"; exit 2; }
-  (cd $V/mc && go build -o $B/mc-$ID . ) || { echo "mc.sh: build failed (not a verdict)"; exit 2; }
-  if [ "$2" = "C10" ]; then
-    (cd $V/mc && go build -race -gcflags='mcrt/...=-race=false' -gcflags='scen=-race=false' -o $B/mcrace-$ID . ) || { echo "mc.sh: race variant build failed (not a verdict)"; exit 2; }
+  $V/bin/mcgen -src $R -out $B/gen/mpb >$B/gen.log 2>&1 || { cat $B/gen.log; echo "mc.sh: cannot instrument $R (not a verdict)"; exit 2; }
+  $V/bin/mcgen -nofuel -src $V/scen -out $B/gen/scen -replace "github.com/vbauerster/mpb/v8=>$B/gen/mpb" >>$B/gen.log 2>&1 || { cat $B/gen.log; echo "mc.sh: cannot instrument scenarios (not a verdict)"; exit 2; }
+  MF=""; PF=""
+  if [ "$B" != "$V/build" ] || [ "$R" != "/repo" ]; then
+    sed "s|/verif/build/gen|$B/gen|g" $V/mc/go.mod > $B/mc.mod; cp $V/mc/go.sum $B/mc.sum 2>/dev/null
+    sed "s|=> /repo|=> $R|" $V/pristine/go.mod > $B/pristine.mod; cp $V/pristine/go.sum $B/pristine.sum 2>/dev/null
+    MF="-modfile=$B/mc.mod"; PF="-modfile=$B/pristine.mod"
   fi
-  (cd $V/pristine && go build -o $B/pristine-$ID . ) || { echo "mc.sh: pristine build failed (not a verdict)"; exit 2; }
+  (cd $V/mc && go build $MF -o $B/mc-$ID . ) || { echo "mc.sh: build failed (not a verdict)"; exit 2; }
+  if [ "$2" = "C10" ]; then
+    (cd $V/mc && go build $MF -race -gcflags='mcrt/...=-race=false' -gcflags='scen=-race=false' -o $B/mcrace-$ID . ) || { echo "mc.sh: race variant build failed (not a verdict)"; exit 2; }
+  fi
+  (cd $V/pristine && go build $PF -o $B/pristine-$ID . ) || { echo "mc.sh: pristine build failed (not a verdict)"; exit 2; }
 ) 9>$B/.lock || exit 2
 MC_RACE_BIN=$B/mcrace-$ID MC_PRISTINE=$B/pristine-$ID $B/mc-$ID "$@"
 rc=$?
